@@ -6,7 +6,10 @@ def literal_text(par, kids, x, variant, depth=0, wrap="%di64"):
     """text of the children block of node x (0 = root): '{ a => { ... }, b, }'"""
     items = []
     for i in kids[x]:
-        expr = "{ lg(%d); %s }" % (i, wrap % i)
+        w = wrap
+        if wrap == "%di64" and (variant + 2 * i) % 4 == 1:
+            w = "%di32.into()"           # an expression whose type is only fixed by the arena's payload type
+        expr = "{ lg(%d); %s }" % (i, w % i)
         if kids[i]:
             items.append("%s => %s" % (expr, literal_text(par, kids, i, variant + i, depth + 1, wrap)))
         else:
@@ -90,6 +93,37 @@ def gen_cases(cases):
                 ek[str(-(100 + j))] = []
             expect.append({"n": n, "form": form + "+drop", "k": k, "par": par, "kids": ek, "log": [-2, -1] + list(range(1, k + 1)),
                            "count": k + 1 + pre, "text": inv, "drops": True})
+    # the same literals in an arena whose payloads are themselves NodeIds (of another arena): inside the braces every
+    # expression is a payload and creates a node, whatever its type (every third shape; the root is given as a node)
+    for ci, c in enumerate(cases):
+        if ci % 3 != 2:
+            continue
+        k, par = c["k"], c["par"]
+        kids = {0: c["kids"][0]}
+        for i in range(1, k + 1):
+            kids[i] = c["kids"][i]
+        n += 1
+        body = ["fn case_%d(out: &mut Vec<Value>) {" % n, "    LOG.with(|l| l.borrow_mut().clear());",
+                "    let mut docs: Arena<i64> = Arena::new();",
+                "    let d: Vec<NodeId> = (0..%d).map(|i| docs.new_node(i as i64)).collect();" % (k + 3),
+                "    let mut arena: Arena<NodeId> = Arena::new();",
+                # an unrelated tree first, so that the payload ids coincide with ids of nodes of `arena` itself
+                "    let other = arena.new_node(d[%d]);" % (k + 1),
+                "    other.append_value(d[%d], &mut arena);" % (k + 2),
+                "    let root_id = arena.new_node(d[0]);"]
+        lit = literal_text(par, kids, 0, n, 0, "d[%d]")
+        inv = "tree!({ lg(-2); &mut arena }, { lg(-1); root_id } => %s)" % lit
+        body.append("    let ret = %s;" % inv)
+        body.append("    report_n(out, %d, \"id0+idpayload\", &arena, &docs, ret, Some(root_id));" % n)
+        body.append("}")
+        src.append("\n".join(body))
+        calls.append("    case_%d(out);" % n)
+        ek = {str(i): kids[i] for i in range(1, k + 1)}
+        ek["0"] = list(kids[0])
+        ek[str(k + 1)] = [k + 2]
+        ek[str(k + 2)] = []
+        expect.append({"n": n, "form": "id0+idpayload", "k": k, "par": par, "kids": ek, "log": [-2, -1] + list(range(1, k + 1)),
+                       "count": k + 3, "text": inv + "   (Arena<NodeId>, d[i] = id of node i of another arena)"})
     src.append("fn run_all(out: &mut Vec<Value>) {\n" + "\n".join(calls) + "\n}")
     return "\n\n".join(src) + "\n", expect
 
